@@ -3,6 +3,7 @@ package main
 // Contract use / verify machinery, intrinsics, pure evaluation, obligations.
 
 import (
+	"os"
 	"crypto/sha1"
 	"sync"
 	"fmt"
@@ -24,6 +25,7 @@ type useCtx struct {
 	callSite ssa.Instruction
 	caller   *Frame
 	reached  bool
+	dirty    map[string]bool
 }
 
 func (x *Run) isVerifPkg(fn *ssa.Function) bool {
@@ -110,7 +112,7 @@ func (x *Run) intrinsic(fr *Frame, st *State, fn *ssa.Function, args []Val, site
 		st.held[key] = 1
 		return single(st, unit), true
 	case "Closed":
-		return single(st, Val{T: sel(x.arr(st, x.chClosedArr(args[0].Ty)), args[0].T), S: SBool}), true
+		return single(st, Val{T: sel(x.arr(st, x.chClosedFor(args[0], args[0].Ty)), args[0].T), S: SBool}), true
 	case "ChanCap":
 		return single(st, Val{T: sel(x.arr(st, x.chCapArr()), args[0].T), S: SInt, Ty: types.Typ[types.Int]}), true
 	case "Any":
@@ -192,6 +194,29 @@ func (x *Run) intrinsic(fr *Frame, st *State, fn *ssa.Function, args []Val, site
 			return single(st, Val{T: and(not(eq(args[0].T, "inil")), eq(app("itag", args[0].T), fmt.Sprint(tag)), fmt.Sprintf("(> (ival %s) 0)", args[0].T)), S: SBool}), true
 		}
 		return single(st, x.freshVal(st, "dynptr", types.Typ[types.Bool])), true
+	case "CalledInIter", "CalledWithInIter":
+		// like Called / CalledWith, restricted to the events after the last loop marker
+		s, _ := x.litString(args[0].T)
+		start := 0
+		for i, e := range st.events {
+			if strings.HasPrefix(e.Name, "loop:") {
+				start = i + 1
+			}
+		}
+		var alts []string
+		for _, e := range st.events[start:] {
+			if !evNameMatch(e.Name, s) {
+				continue
+			}
+			if name == "CalledInIter" {
+				return single(st, Val{T: "true", S: SBool}), true
+			}
+			idx, _ := litInt(args[1].T)
+			if idx < len(e.Args) && e.Args[idx].S == args[2].S {
+				alts = append(alts, eq(e.Args[idx].T, args[2].T))
+			}
+		}
+		return single(st, Val{T: or(alts...), S: SBool}), true
 	case "CalledBefore":
 		a, _ := x.litString(args[0].T)
 		b, _ := x.litString(args[1].T)
@@ -259,7 +284,7 @@ func (x *Run) intrinsic(fr *Frame, st *State, fn *ssa.Function, args []Val, site
 func (x *Run) eventMatch(st *State, name string, args []Val) string {
 	var alts []string
 	for _, e := range st.events {
-		if e.Name != name {
+		if e.Name != name && !strings.HasPrefix(e.Name, name+":") {
 			continue
 		}
 		var cs []string
@@ -399,6 +424,9 @@ func (x *Run) useContract(fr *Frame, st *State, con *Contract, args []Val, site 
 		res.assume(forall(bound, bsorts, body))
 	}
 	res.events = append(res.events, Event{Name: "call:" + con.TargetName, Args: args, Ret: ctx.results})
+	for k := range ctx.dirty {
+		res.dirty[k] = true
+	}
 	return single(res, ctx.results)
 }
 
@@ -419,7 +447,13 @@ func (x *Run) prepareUse(ctx *useCtx, con *Contract, st *State) {
 		if !con.Trusted {
 			ms = x.modSet(con.Target)
 		}
+		if ms.Top && traceOn {
+			fmt.Fprintf(os.Stderr, "modset of %s is TOP: %s\n", con.TargetName, ms.Why)
+		}
 		if con.Modifies != nil {
+			x.mu.Lock()
+			x.trusted["declared-frame:"+x.fnShort(con.Fn)] = true
+			x.mu.Unlock()
 			ms = newModSet()
 			for _, m := range con.Modifies {
 				ms.Arrs[m] = true
@@ -431,7 +465,7 @@ func (x *Run) prepareUse(ctx *useCtx, con *Contract, st *State) {
 		// interface method / external: declared modifies or nothing
 		for _, m := range con.Modifies {
 			if m == "*" {
-				x.havocAll(h)
+				x.havocAllExcept(h, con.Preserves)
 			} else {
 				x.havocArr(h, m)
 			}
@@ -440,6 +474,7 @@ func (x *Run) prepareUse(ctx *useCtx, con *Contract, st *State) {
 	}
 	ctx.heap = h.heap
 	ctx.epoch = h.epoch
+	ctx.dirty = h.dirty
 	// typing facts for results
 	for _, c := range h.pc[len(ctx.base.pc):] {
 		ctx.base.assume(pcPlain(c))
@@ -597,7 +632,7 @@ func (x *Run) solveCached(body string) SolveResult {
 	if r.Status != "unsat" && r.Status != "sat" {
 		r = solve(body, x.timeout, true, nil)
 	}
-	if r.Status != "unsat" && r.Status != "sat" {
+	if r.Status != "unsat" && r.Status != "sat" && *flagTier == "thorough" {
 		r2 := solve(body, x.timeout*6, true, nil)
 		if r2.Status == "unsat" || r2.Status == "sat" {
 			r = r2
